@@ -485,6 +485,26 @@ func checkC17(c *c17Case) (ds []hx.Discrepancy, info map[string]bool) {
 	if len(ds) == 0 && c.Draft {
 		ds = append(ds, leafIdentity(root, sdl)...)
 	}
+	if len(ds) == 0 && len(c.Loads) > 1 {
+		// what the root says about the schema does not depend on whether it was asked while the
+		// schema was still arriving: a second root is given the same loads and asked only at the end
+		quiet := newRootOfKind(c.RootKind)
+		ok := true
+		for _, part := range c.Loads {
+			ok = ok && quiet.ParseString(part) == nil
+		}
+		ask := func(r *ggql.Root) string {
+			defer func() { _ = recover() }()
+			return hx.Show(hx.Norm(r.ResolveString(strings.ReplaceAll(c17Query, "INC", "true"), "", nil)))
+		}
+		if ok {
+			info["compared-with-a-root-not-asked-between-loads"] = true
+			if a, b := ask(root), ask(quiet); a != b {
+				ds = append(ds, hx.Discrepancy{Kind: "introspection-depends-on-earlier-requests", Detail: fmt.Sprintf("a root that was asked about itself after every load and one that was asked only at the end describe the schema differently: %s\nloads:\n%s",
+					firstDiff(strings.ReplaceAll(b, ",", ",\n"), strings.ReplaceAll(a, ",", ",\n")), strings.Join(c.Loads, "\n---next load---\n"))})
+			}
+		}
+	}
 	return
 }
 
